@@ -1,8 +1,9 @@
 (* Judge for C07.
    case = (text intended obs_sentences obs_forest obs_schemas)
      text          code points of the copybook
-     intended      entries the generator printed: (level name? filler? redefines? pic occ compact-text indexed)
-                   level = the two characters; x? = () or (string); pic/occ/indexed = 0/1
+     intended      entries the generator printed: (level name? filler? redefines? pic occ compact-text indexed value?)
+                   level = the two characters; x? = () or (string); pic/occ/indexed = 0/1;
+                   value? = the VALUE literal as written, quotes included
      obs_sentences (0 entries) | (1 exn): what dde_sentences + clause_dict returned (same shape, indexed = 0)
      obs_forest    (0 trees) | (1 exn): structure(...), tree = (level name unique_name redefines? compact-text (kids))
      obs_schemas   (0 nodes) | (1 exn): list(schema_iter(...)), node = (kind title? anchor? cobol? ((key node) ...))
@@ -10,10 +11,14 @@
            (Spec/Dde.v) demands of the intended entries and equals the model's, the schemas equal
            the model's, and a well-formed copybook ends in no error and its schemas define every kept
            entry exactly once, in full, nested as the forest (skel = skel_tree).
-   agree = forest and schemas equal the model run on the OBSERVED sentences. *)
+   agree = forest and schemas equal the model run on the OBSERVED sentences.
+   known = the trigger of a known finding holds (for finding 5 also: the observed sentences are the
+           intended ones with exactly the clause texts of the triggering entries cut at their first
+           period-white-space pair). *)
 From Coq Require Import ZArith NArith List Bool Arith.
 Import ListNotations.
 Require Import SR.Base.Sx SR.Base.Res SR.Spec.Dde SR.Model.Structure.
+Require SR.Model.RefFormat.
 Open Scope Z_scope.
 
 (* ---------------------------------------------------------------- decoding *)
@@ -28,6 +33,7 @@ Definition entry_of_sx (s : sx) : entry :=
      eredef := as_optstr (nth_sx 3 s); epic := as_bool (nth_sx 4 s); eocc := as_bool (nth_sx 5 s);
      etext := as_str (nth_sx 6 s) |}.
 Definition indexed_of_sx (s : sx) : bool := as_bool (nth_sx 7 s).
+Definition value_of_sx (s : sx) : option str := as_optstr (nth_sx 8 s).
 
 Definition optstr_eqb (a b : option str) : bool :=
   match a, b with
@@ -248,6 +254,31 @@ Definition ends_badly (t : list N) : bool :=
 
 Definition res_ok_sx (o : sx) : bool := Z.eqb (as_Z (nth_sx 0 o)) 0.
 
+(* Known finding 5: the sentence pattern of dde_sentences ends an entry at the first period that is
+   followed by white space, also inside a VALUE literal.
+   Trigger: some VALUE literal contains a period followed by a white-space character (the class the
+   pattern's backslash-s accepts, Model/RefFormat.v is_ws). *)
+Fixpoint has_period_ws (s : str) : bool :=
+  match s with
+  | [] => false
+  | c :: t => ((c =? 46)%N && match t with w :: _ => SR.Model.RefFormat.is_ws w | [] => false end) || has_period_ws t
+  end.
+Definition value_period_ws (s : sx) : bool :=
+  match value_of_sx s with Some v => has_period_ws v | None => false end.
+(* the text before the first period-white-space pair *)
+Fixpoint cut_term (s : str) : str :=
+  match s with
+  | [] => []
+  | c :: t => if (c =? 46)%N && match t with w :: _ => SR.Model.RefFormat.is_ws w | [] => false end then []
+              else c :: cut_term t
+  end.
+Definition with_text (e : entry) (t : str) : entry :=
+  {| elv := elv e; ename := ename e; efill := efill e; eredef := eredef e; epic := epic e; eocc := eocc e; etext := t |}.
+(* what finding 5 makes of a printed entry: the text of a triggering entry is cut, nothing else changes *)
+Definition truncated_entry (s : sx) : entry :=
+  let e := entry_of_sx s in
+  if value_period_ws s then with_text e (cut_term (etext e)) else e.
+
 Definition spec_holds (kept : list dde) (obs_f : list tree) : bool :=
   let pre := preorder_f obs_f in
   let K := map (fun d => lvl_num (dlv d)) kept in
@@ -301,6 +332,8 @@ Definition judge (c : sx) : sx :=
     else if existsb keyword_prefixed intended then Some 3
     else if existsb indexed_of_sx isx then Some 4
     else if existsb redef_in_occurs mforest then Some 2
+    else if existsb value_period_ws isx
+         then (if res_ok_sx osent && entries_sim (map truncated_entry isx) observed then Some 5 else None)
     else None in
   let branch :=
     (match intended with
